@@ -261,7 +261,11 @@ func checkC07(c *core.Ctx, l *core.Ledger) {
 			if call, ok := in.(ssa.CallInstruction); ok && call.Common().IsInvoke() && call.Common().Method.Name() == "Link" && len(call.Common().Args) == 2 {
 				if fld, _ := core.LoadedField(call.Common().Value); fld != nil && core.FieldName(fld) == n.valField {
 					cast = in
-					if tf, _ := core.LoadedField(call.Common().Args[1]); tf != nil && tf.Name() == n.typeField {
+					if tf, _ := core.LoadedField(call.Common().Args[1]); tf != nil && core.FieldName(tf) == n.typeField {
+						castArgOK = true
+					}
+					// ... or the very value that was just stored into the type field
+					if ts, isSt := typeStore.(*ssa.Store); isSt && ts.Val == call.Common().Args[1] {
 						castArgOK = true
 					}
 				}
